@@ -42,20 +42,20 @@ def extra_cmp_l2(fam, kinds, nq, nt, laws=False):
             violation(f'l2-{fam}-compile-{cfail.get("start")}', dict(
                 what='a generated program that the expander accepted does not compile',
                 detail=cfail), no_input=False)
-        rel = [m for m in res['mismatches'] if m.get('kind') != 'behaviour' or m['observed'].split(' ')[1] in kinds
-               or m['expected'].split(' ')[1] in kinds]
+        rel = [m for m in res['mismatches'] if kinds is None or m.get('kind') != 'behaviour'
+               or (m['observed'].split(' ') + ['', ''])[1] in kinds or (m['expected'].split(' ') + ['', ''])[1] in kinds]
         for i, m in enumerate(rel[:5]):
             violation(f'l2-{fam}-{i}', dict(
                 what='behaviour of the compiled impl differs from the documented rule on a concrete input',
                 property=prop, **m,
                 how_to_read='row = value index a within the trait block; the first differing column is value index b; values are listed in `vs` of the module in the program file'))
-        cov = dict(l2=dict(family=fam, types=res['types'], rows=res['rows'], cells_compared=res['cells'],
+        cov = {'l2_' + fam: dict(family=fam, types=res['types'], rows=res['rows'], cells_compared=res['cells'],
                            mismatches=len(res['mismatches']), compile_failures=len(res['compile_failures']),
                            distribution=res['stats'], seed=seed,
-                           sample_types=list(res['sources'].values())[:3]))
+                           sample_types=list(res['sources'].values())[:3])}
         if laws:
             bad, checked = l2.law_violations(res['observed'], res['sources'])
-            cov['l2']['law_checks'] = checked
+            cov['l2_' + fam]['law_checks'] = checked
             for i, b in enumerate(bad[:5]):
                 violation(f'l2-law-{i}', dict(what='derived impls disagree with one another on a concrete pair of values',
                                               property=prop, **b))
@@ -95,8 +95,8 @@ def extra_rustc(gen, nq, nt, key_of=None):
                         property=prop, case=c['id'], item=c.get('item'), scope=c.get('scope'), names=c.get('names'),
                         diagnostics=diags[:6], program=path, finding_key=key,
                         replay_hint=f'rustc --edition 2021 --crate-type lib --emit=metadata --extern derive_ex={l2.SO} {path}'))
-        return dict(l2=dict(programs=len(res), rejected=nbad, distribution=dist, seed=seed,
-                            sample_programs=[c.get('item') for c in cases[:3]]))
+        return {'l2_' + gen.__name__.replace('gen_', ''): dict(programs=len(res), rejected=nbad, distribution=dist, seed=seed,
+                            sample_programs=[c.get('item') for c in cases[:3]])}
     return run
 
 
@@ -168,7 +168,7 @@ def extra_programs(genfn, nq, nt, per=120, what='the compiled program observes b
                         os.remove(res['src'])
                     except OSError:
                         pass
-        return dict(l2_programs=dict(types=types, comparisons=checks, differences=fails, distribution=dist, seed=seed))
+        return {'l2_' + genfn.__name__.replace('gen_', ''): dict(types=types, comparisons=checks, differences=fails, distribution=dist, seed=seed)}
     return run
 
 
@@ -213,8 +213,8 @@ def extra_verdicts(genfn, nq, nt):
                     what='rustc\'s verdict on this program differs from the reference rule of the property',
                     property=prop, case=c['id'], item=c.get('item'), expected=want, accepted=accepted,
                     diagnostics=diags[:4], program=path))
-        return dict(l2_verdicts=dict(programs=len(res), wrong=nbad, distribution=dist, seed=seed,
-                                     sample_programs=[c.get('item') for c in cases[:3]]))
+        return {'l2_' + genfn.__name__.replace('gen_', ''): dict(programs=len(res), wrong=nbad, distribution=dist, seed=seed,
+                                     sample_programs=[c.get('item') for c in cases[:3]])}
     return run
 
 
@@ -406,14 +406,14 @@ PROPS.update({
         theorems=[(CMP + 'C07', ['DX.clone_fieldwise', 'DX.clone_struct_fields', 'DX.clone_enum_fields',
                                  'DX.clone_from_same_variant', 'DX.clone_from_other_variant', 'DX.clone_from_spec'])],
         l1=[('basic', 4000, 150000), ('all', 3000, 100000)],
-        extra=extras(extra_programs(l2gen.gen_c07_program, 320, 6400, per=40, what='clone / clone_from differ from the documented field-wise behaviour (value, calls made on the fields, or the source changed)'), extra_twins(360, 6000)),
+        extra=extras(extra_cmp_l2('cloneRun', None, 480, 9600), extra_programs(l2gen.gen_c07_program, 320, 6400, per=40, what='clone / clone_from differ from the documented field-wise behaviour (value, calls made on the fields, or the source changed)'), extra_twins(360, 6000)),
         labels=r':Clone$',
     ),
     'C08': dict(
         theorems=[('DeriveExModel.Props.Tables', ['DX.trait_table_model', 'DX.trait_table_complete']), (CMP + 'C08', ['DX.forms_emitted', 'DX.ops_one_impl_per_form', 'DX.bin_fieldwise', 'DX.assign_fieldwise',
                                  'DX.un_fieldwise', 'DX.ops_fields', 'DX.forms_agree'])],
         l1=[('ops', 4000, 150000), ('all', 3000, 100000)],
-        extra=extra_programs(l2gen.gen_c08_program, 480, 9600, per=60, what='an operator derived from the struct definition does not act field-wise (value, operand order, reference form, call count or a borrowed operand changed)'),
+        extra=extras(extra_cmp_l2('opsRun', None, 480, 9600), extra_programs(l2gen.gen_c08_program, 480, 9600, per=60, what='an operator derived from the struct definition does not act field-wise (value, operand order, reference form, call count or a borrowed operand changed)')),
         labels=r':(Add|BitAnd|BitOr|BitXor|Div|Mul|Rem|Shl|Shr|Sub|Neg|Not)(Assign)?(#\d)?$',
     ),
     'C09': dict(
